@@ -81,3 +81,93 @@ Definition mget (fuel : nat) (m : msg) (vs : vars) (q : key) : res found :=
       | Panic => Err (EPanic 33)
       end
   end.
+
+(* ---- searchID on the message (trie/slimtrie_query.go: searchID, leftMost, rightMost) ---- *)
+Fixpoint mleftmost (fuel : nat) (m : msg) (vs : vars) (id : nat) : res nat :=
+  match fuel with
+  | 0 => Err EFuel
+  | S f =>
+      match get_node m vs (N.of_nat id) with
+      | Val (DnLeaf _ _) => Ok id
+      | Val (DnInner _ _ from _ _ _ _) =>
+          match first_child m from with            (* Rank128(Inners, from) + 1 *)
+          | Val c => mleftmost f m vs (N.to_nat c)
+          | Panic => Err (EPanic 34)
+          end
+      | Panic => Err (EPanic 35)
+      end
+  end.
+
+Fixpoint mrightmost (fuel : nat) (m : msg) (vs : vars) (id : nat) : res nat :=
+  match fuel with
+  | 0 => Err EFuel
+  | S f =>
+      match get_node m vs (N.of_nat id) with
+      | Val (DnLeaf _ _) => Ok id
+      | Val (DnInner _ _ _ to _ _ _) =>
+          match last_child m to with               (* Rank128(Inners, to-1) + bit *)
+          | Val c => mrightmost f m vs (N.to_nat c)
+          | Panic => Err (EPanic 36)
+          end
+      | Panic => Err (EPanic 37)
+      end
+  end.
+
+Fixpoint msearch_down (fuel : nat) (m : msg) (vs : vars) (qn : list nat) (l id i : nat) (lc rc : option nat)
+  : res (option nat * option (nat * nat * bool) * option nat) :=
+  match fuel with
+  | 0 => Err EFuel
+  | S f =>
+      match get_node m vs (N.of_nat id), get_view m vs (N.of_nat id) with
+      | Val (DnLeaf _ _), _ => Ok (lc, Some (id, i, true), rc)
+      | Val (DnInner _ _ from to bm _ _), Val (VInner _ big step pfx _ _) =>
+          match advance3 qn l i step pfx with
+          | ALt => Ok (lc, None, Some id)
+          | AGt => Ok (Some id, None, rc)
+          | AEq i1 =>
+              match left_child m from to bm (N.of_nat (label_at big qn i1)), first_child m from, last_child m to with
+              | Val (lch, has), Val lm, Val rm =>
+                  let chid := (lch + has)%N in
+                  let right := (chid + 1)%N in
+                  let lc' := if (lm <=? lch)%N && (lch <=? rm)%N then Some (N.to_nat lch) else lc in
+                  let rc' := if (lm <=? right)%N && (right <=? rm)%N then Some (N.to_nat right) else rc in
+                  if N.eqb has 0 then Ok (lc', None, rc')
+                  else if Nat.eqb i1 l then Ok (lc', Some (N.to_nat chid, i1, false), rc')
+                  else msearch_down f m vs qn l (N.to_nat chid) (i1 + wsize big) lc' rc'
+              | _, _, _ => Err (EPanic 38)
+              end
+          end
+      | _, _ => Err (EPanic 39)
+      end
+  end.
+
+Definition msearchid (fuel : nat) (m : msg) (vs : vars) (q : key) : res (option nat * option nat * option nat) :=
+  match m_nodetype m with
+  | None => Ok (None, None, None)
+  | Some _ =>
+      let qn := nibs q in
+      let l := length qn in
+      do d <- msearch_down fuel m vs qn l 0 0 None None;
+      let '(lc, eq, rc) := d in
+      do d2 <-
+        match eq with
+        | None => Ok (lc, None, rc)
+        | Some (id, i, visited) =>
+            if i <=? l then
+              do cmp <- match m_leafpfx m with
+                        | Some _ => do t <- msess_tail m vs id visited;
+                                    Ok (bytes_cmp (skipn (i / 2) q) (match t with Some t => t | None => [] end))
+                        | None => Ok Eq
+                        end;
+              match cmp with
+              | Lt => Ok (lc, None, Some id)
+              | Gt => Ok (Some id, None, rc)
+              | Eq => Ok (lc, Some id, rc)
+              end
+            else Ok (lc, Some id, rc)
+        end;
+      let '(lc2, eq2, rc2) := d2 in
+      do lres <- match lc2 with None => Ok None | Some x => do y <- mrightmost fuel m vs x; Ok (Some y) end;
+      do rres <- match rc2 with None => Ok None | Some x => do y <- mleftmost fuel m vs x; Ok (Some y) end;
+      Ok (lres, eq2, rres)
+  end.
